@@ -4,6 +4,8 @@
 #include <stddef.h>
 #include <string.h>
 #include <stdlib.h>
+#include <math.h>
+#include <wchar.h>
 typedef unsigned char u8; typedef unsigned short u16; typedef unsigned int u32; typedef unsigned long u64; typedef unsigned __int128 u128;
 typedef signed char i8; typedef short i16; typedef int i32; typedef long i64; typedef __int128 i128;
 #ifndef VF_MAXB
